@@ -51,6 +51,8 @@ structure Env where
   bpop : Nat
   jmp : Nat
   maxCnt : Nat := 0     -- ParseExprLimit (0 = the generated default, effectively unlimited here)
+  custom : Nat → Nat := fun _ => 0   -- registered custom dice parsers: length of the match starting at an offset (0 = no match)
+  customOp : Nat := 0                -- typeCustomDice
 
 structure PState where
   pos : Nat := 0
@@ -67,6 +69,7 @@ structure PState where
   memo2 : Std.HashMap (Nat × Nat) (Bool × Nat) := {}
   cnt : Nat := 0
   switched : Bool := false        -- ghost: a flagsSwitch macro action has run
+  pending : Option (Nat × Nat) := none   -- pendingCustomDice: (start offset, byte length)
   leaks : List Nat := []          -- ghost: ids of sequences that failed after code had been written inside them (emit-then-fail)
   broken : Option String := none  -- the model met something it does not understand
   fuelOut : Bool := false
@@ -81,6 +84,11 @@ def advance (env : Env) (s : PState) : PState :=
   let (rn, w2) := decodeAt env s.pos
   if rn == DS.ErrFmt.runeError && w2 == 1 then { s with errs := true } else s
 
+/-- `for p.pt.offset < target { p.read() }` -/
+def advanceTo (env : Env) (target : Nat) : Nat → PState → PState
+  | 0, s => s
+  | fuel+1, s => if s.pos < target then advanceTo env target fuel (advance env s) else s
+
 def inTable (t : Array (Nat × Nat × Nat)) (r : Nat) : Bool :=
   t.any (fun (lo, hi, stride) => lo ≤ r && r ≤ hi && (stride ≤ 1 || (r - lo) % stride == 0))
 
@@ -90,6 +98,29 @@ def sliceText (env : Env) (a b : Nat) : String :=
   match String.fromUTF8? (ByteArray.mk ((env.input.extract a b).map (fun n => UInt8.ofNat n))) with
   | some s => s
   | none => ""
+
+/-- PrepareCustomDice: remembers the match; inside a look-ahead (where the consuming action does not run) it also steps over it -/
+def prepareCustom (env : Env) (s : PState) : PState × Bool :=
+  let len := env.custom s.pos
+  if len == 0 then ({ s with pending := none }, false)
+  else
+    let s := { s with pending := some (s.pos, len) }
+    (if s.skip > 0 then advanceTo env (s.pos + len) (len + 1) s else s, true)
+
+/-- ConsumeCustomDice: ensurePendingCustomDice (the pending match if it starts here, else a fresh attempt), then step over it -/
+def consumeCustom (env : Env) (s : PState) : PState :=
+  let m : Option (Nat × Nat) := match s.pending with
+    | some (st, len) => if st == s.pos then some (st, len) else (if env.custom s.pos == 0 then none else some (s.pos, env.custom s.pos))
+    | none => if env.custom s.pos == 0 then none else some (s.pos, env.custom s.pos)
+  match m with
+  | none => { s with pending := none }
+  | some (st, len) => advanceTo env (st + len) (len + 1) { s with pending := some (st, len) }
+
+/-- CommitCustomDice: write typeCustomDice for the pending match -/
+def commitCustom (env : Env) (s : PState) : PState :=
+  match s.pending with
+  | none => s
+  | some _ => { s with pending := none, trace := env.customOp :: s.trace }
 
 def runEff (env : Env) (s : PState) (e : Eff) : PState :=
   match e with
@@ -117,6 +148,8 @@ def runEff (env : Env) (s : PState) (e : Eff) : PState :=
       else s.cfg
     { s with switched := true, cfg := cfg' }
   | .addErr => { s with errs := true }
+  | .consumeCustom => consumeCustom env s
+  | .commitCustom => commitCustom env s
   | .unknown w => { s with broken := some w }
 
 def runAct (env : Env) (s : PState) (a : Nat) : PState := ((env.acts[a]!).effs).foldl (runEff env) s
@@ -128,7 +161,7 @@ def evalPred (env : Env) (s : PState) (a : Nat) : PState × Bool :=
   match act.pred with
   | .flag f neg => (s, if neg then !(s.cfg.get f) else s.cfg.get f)
   | .const v => (s, v)
-  | .customDice => (s, false)      -- no custom dice parser registered
+  | .customDice => prepareCustom env s
   | .none => ({ s with broken := some "code predicate without a boolean result" }, false)
   | .unknown w => ({ s with broken := some ("predicate " ++ w) }, false)
 
